@@ -50,8 +50,9 @@ VARIABLES members,     \* model membership (derived from the stimuli)
           applied,     \* h |-> Apply(returned[h]), kept incrementally (long scenarios)
           lastT,       \* h |-> peer |-> type of the last event returned for the peer ("-" = none)
           altBad,      \* h |-> some returned event repeated the previous type of its peer / a first event was a Leave
-          empt,        \* h |-> real evidence that the real log is empty (blocked call / context error with nothing produced since)
-          calls,       \* id |-> [h, ctx, mode, pc, k, p, prod]
+          empt,        \* h |-> real evidence that the real log is empty: a call was seen blocked in the select and nothing
+                       \*       was produced for h since (a context error is NOT such evidence, see CCtx)
+          calls,       \* id |-> [h, ctx, mode, pc, k, p]
           cctx,        \* cancelled contexts
           inflight,    \* subscription options announced by the last stim line and not yet processed
           viol, scn, base, l
@@ -85,7 +86,6 @@ TStim ==
 Tell(t, p) ==
     /\ log' = [h \in DOMAIN log |-> IF h \in live THEN O!Add(log[h], 0, t, p)[1] ELSE log[h]]
     /\ empt' = [h \in DOMAIN empt |-> IF h \in live THEN FALSE ELSE empt[h]]
-    /\ calls' = [id \in DOMAIN calls |-> IF calls[id].h \in live THEN [calls[id] EXCEPT !.prod = TRUE] ELSE calls[id]]
 TRaw(i) ==
     /\ inflight[i].seq # <<>>
     /\ LET p == inflight[i].p
@@ -93,9 +93,9 @@ TRaw(i) ==
        /\ p \in Peers
        /\ IF v /\ p \notin members THEN members' = members \cup {p} /\ Tell("J", p)
           ELSE IF ~v /\ p \in members THEN members' = members \ {p} /\ Tell("L", p)
-          ELSE UNCHANGED <<members, log, empt, calls>>
+          ELSE UNCHANGED <<members, log, empt>>
     /\ inflight' = [inflight EXCEPT ![i].seq = Tail(@)]
-    /\ UNCHANGED <<created, live, returned, applied, lastT, altBad, cctx, viol, scn, base, l>>
+    /\ UNCHANGED <<created, live, returned, applied, lastT, altBad, calls, cctx, viol, scn, base, l>>
 
 \* the membership derived from the stimuli must be the ground truth (otherwise the scenario is not judged:
 \* the orchestrator reports MODEL-DRIFT); disagreement of the second ground truth (Topic.ListPeers) with the
@@ -127,7 +127,7 @@ TCancelH ==
 (* consumers *)
 TCall ==
     /\ More /\ E.e = "call" /\ E.id \notin DOMAIN calls /\ E.h \in created
-    /\ calls' = calls @@ (E.id :> [h |-> E.h, ctx |-> E.ctx, mode |-> E.mode, pc |-> "run", k |-> "", p |-> "", prod |-> FALSE])
+    /\ calls' = calls @@ (E.id :> [h |-> E.h, ctx |-> E.ctx, mode |-> E.mode, pc |-> "run", k |-> "", p |-> ""])
     /\ Adv /\ UNCHANGED <<members, created, live, log, returned, applied, lastT, altBad, empt, cctx, inflight, viol, scn, base>>
 
 \* the real handler h handed out event (t, p): history and monitors
@@ -158,9 +158,14 @@ CRest(id) ==
     /\ calls' = [calls EXCEPT ![id].pc = Rest(id)]
     /\ UNCHANGED <<members, created, live, log, returned, applied, lastT, altBad, empt, cctx, inflight, viol, scn, base, l>>
 
-\* the select takes ctx.Done()
+\* the call returns the context error.  Allowed whenever its context is cancelled, whatever the model log
+\* holds and whether or not the call has looked at the log yet: the property does not exclude an implementation
+\* that checks the context first.  Nothing is pulled in this step; so if the REAL call did remove an event and
+\* swallowed it, the event stays pending in the model and the loss shows where the property says it must: a later
+\* Leave without its Join (P_C18_Alternate / P_C18_Elide at a ret line) or a drained handler whose stream does not
+\* rebuild the peer set (P_C18_Replay at a quiet line; the driver's epilogue drains every handler).
 CCtx(id) ==
-    /\ calls[id].pc = "wait" /\ calls[id].ctx \in cctx
+    /\ calls[id].pc \in {"run", "wait"} /\ calls[id].ctx \in cctx
     /\ calls' = [calls EXCEPT ![id].pc = "lin", ![id].k = "ctx", ![id].p = ""]
     /\ UNCHANGED <<members, created, live, log, returned, applied, lastT, altBad, empt, cctx, inflight, viol, scn, base, l>>
 
@@ -182,8 +187,7 @@ TRet ==
        \/ \* explained: the model handed out exactly this
           /\ c.pc = "lin" /\ c.k = E.k /\ c.p = E.p
           /\ calls' = Drop(E.id)
-          /\ empt' = IF E.k = "ctx" /\ ~c.prod THEN [empt EXCEPT ![c.h] = TRUE] ELSE empt
-          /\ UNCHANGED <<returned, applied, lastT, altBad, viol>>
+          /\ UNCHANGED <<returned, applied, lastT, altBad, empt, viol>>
        \/ \* an event that is not pending in the model: name the predicate it breaks
           /\ c.pc \in {"run", "wait"} /\ E.k \in {"J", "L"}
           /\ E.p \notin Peers \/ log[c.h][E.p] # E.k
@@ -192,8 +196,8 @@ TRet ==
              /\ returned' = [returned EXCEPT ![c.h] = s]
              /\ viol' = V /\ Flag(V)
           /\ calls' = Drop(E.id) /\ UNCHANGED <<applied, lastT, altBad, empt>>
-       \/ \* neither an event nor the context error
-          /\ E.k = "err"
+       \/ \* neither an event nor the context error, or the context error although the context was never cancelled
+          /\ E.k = "err" \/ (E.k = "ctx" /\ c.ctx \notin cctx)
           /\ viol' = {"P_C18_UnexpectedError"} /\ Flag({"P_C18_UnexpectedError"})
           /\ calls' = Drop(E.id) /\ UNCHANGED <<returned, applied, lastT, altBad, empt>>
     /\ Adv /\ UNCHANGED <<members, created, live, log, cctx, inflight, scn, base>>
